@@ -76,6 +76,7 @@ func (o *output) Write(buf []byte) (int, error) {
 		alloc := slices.Clone(buf)
 		cpy = &alloc
 	}
+	verifPoint("out:send")
 	o.channel <- cpy
 	return len(buf), nil
 }
@@ -161,7 +162,9 @@ func (d *Driver) Run() {
 func (d *Driver) readInput() {
 	for d.input.Scan() {
 		line := d.input.Text()
+		verifPoint("read:send")
 		d.inputLines <- line
+		verifPoint("read:sent")
 
 		if firstWord(line) == "quit" {
 			return
@@ -185,6 +188,7 @@ func (d *Driver) writeOutput() {
 
 func (d *Driver) handleInput() {
 	for line := range d.inputLines {
+		verifPoint("handle:line")
 		d.handleCommand(line)
 	}
 }
@@ -529,6 +533,7 @@ func (d *Driver) handleGo(args []string) (quit bool) {
 	// search interrupt goroutine
 	wg.Go(func() {
 		defer close(stop)
+		verifPoint("int:start")
 
 		var hardTimer *time.Timer
 		var hardC <-chan time.Time
@@ -544,9 +549,11 @@ func (d *Driver) handleGo(args []string) (quit bool) {
 			//  - quit command
 			//  - hard timeout reached
 
+			verifPoint("int:select")
 			select {
 
 			case <-searchFin:
+				verifPoint("int:fin")
 				return
 
 			case <-hardC:
@@ -559,6 +566,7 @@ func (d *Driver) handleGo(args []string) (quit bool) {
 				}
 
 				cmd := firstWord(line)
+				verifPoint("int:line")
 
 				switch cmd {
 
@@ -587,10 +595,14 @@ func (d *Driver) handleGo(args []string) (quit bool) {
 		}
 	})
 
+	verifPoint("go:search")
 	_, bm, pm := d.search.Go(d.board, opts...)
+	verifPoint("go:searched")
 	close(searchFin)
+	verifPoint("go:wait")
 
 	wg.Wait()
+	verifPoint("go:bestmove")
 
 	// printing "bestmove" signals the end of the search to the GUI, thus it is
 	// delayed until the interrupt goroutine finished. This sets clear semantics
